@@ -244,8 +244,8 @@ func checkDefs() map[string]CheckDef {
 			{Pkg: "internal/verifh/c07", Harness: "VerifC07SubFunding", TV: 10},
 			{Pkg: "internal/verifh/c07", Harness: "VerifC07SubSettlement", TV: 10},
 			{Pkg: "internal/verifh/c07", Harness: "VerifC07SubFinal", TV: 6, Note: "settlement interceptor installed by the real acceptUpdate of the peer's final sub-channel update"},
-			{Pkg: "internal/verifh/c12", Harness: "VerifVirtualFunding", Quick: map[string]int{"devmask": 6951}, TV: 1, Note: "quick: deviations 0,1,2,5,8,9,11,12 (the others run in C12's quick tier); thorough: all"},
-			{Pkg: "internal/verifh/c12", Harness: "VerifVirtualSettlement", Quick: map[string]int{"bKinds": 2, "devmask": 435}, TV: 1, Note: "quick: deviations 0,1,4,5,7,8; thorough: all"},
+			{Pkg: "internal/verifh/c12", Harness: "VerifVirtualFunding", Quick: map[string]int{"devmask": 6951}, TV: 1, Note: "quick: deviations 0,1,2,5,8,9,11,12 (the others run in C12's quick tier)"},
+			{Pkg: "internal/verifh/c12", Harness: "VerifVirtualSettlement", Quick: map[string]int{"bKinds": 2, "devmask": 435}, TV: 1, Note: "quick: deviations 0,1,4,5,7,8"},
 		},
 		Assumptions: append(append([]string{}, clientAssume...),
 			"the independent acceptability predicates are written from the property text in the harness (c07.go acceptable/successor, sub.go, c12/virtual.go fundingRef/settlementRef); the wire-level sender is not part of them (the property identifies the sender by the signature)",
@@ -259,8 +259,8 @@ func checkDefs() map[string]CheckDef {
 			{Pkg: "internal/verifh/c12", Harness: "VerifC12Sync", Quick: map[string]int{"phases": 2}, TV: 10},
 			{Pkg: "internal/verifh/c12", Harness: "VerifC12Update", Quick: map[string]int{"phases": 2}, TV: 10},
 			{Pkg: "internal/verifh/c08", Harness: "VerifC08Validation", TV: 6, Note: "proposal messages: no panic, parent channel not left locked"},
-			{Pkg: "internal/verifh/c12", Harness: "VerifVirtualFunding", Quick: map[string]int{"devmask": 9437}, TV: 1, Note: "quick: deviations 0,2,3,4,6,7,10,13 (the others run in C07's quick tier); thorough: all"},
-			{Pkg: "internal/verifh/c12", Harness: "VerifVirtualSettlement", Quick: map[string]int{"bKinds": 2, "devmask": 3661}, TV: 1, Note: "quick: deviations 0,2,3,6,9,10,11; thorough: all"},
+			{Pkg: "internal/verifh/c12", Harness: "VerifVirtualFunding", Quick: map[string]int{"devmask": 9437}, TV: 1, Note: "quick: deviations 0,2,3,4,6,7,10,13 (the others run in C07's quick tier)"},
+			{Pkg: "internal/verifh/c12", Harness: "VerifVirtualSettlement", Quick: map[string]int{"bKinds": 2, "devmask": 3661}, TV: 1, Note: "quick: deviations 0,2,3,6,9,10,11"},
 		},
 		Assumptions: append(append([]string{}, clientAssume...),
 			"'decodes successfully' is modelled by building message values directly within what the decoders can deliver (C13/C14 cover the decoders): states that fail State.Valid are only sent with garbage signatures; parameters have at least two participants; no nil sub-messages",
